@@ -239,6 +239,9 @@ def _convert_variable(node_id, var_type, value):
         value = value.replace(" ", "").upper()
         if '$NODEID' in value and node_id is not None:
             return int(re.sub(r'\+?\$NODEID\+?', '', value), 0) + node_id
+        elif var_type in datatypes.SIGNED_TYPES and value.startswith("0X"):
+            # Negative numbers are commonly written as two's complement
+            return _signed_int_from_hex(value, _calc_bit_length(var_type))
         else:
             return int(value, 0)
 
